@@ -28,7 +28,7 @@ PROPS = {
             "C10_A24_repaired": [],
         },
         n_quick=320, n_thorough=4000,
-        gates=["obs.ok", "obs.panic", "obs.err.EInvalidJump", "obs.err.EDuplicateName", "obs.err.EEmptyVariable",
+        gates=["obs.ok", "obs.err.ETooManyUpvalues", "obs.err.EInvalidJump", "obs.err.EDuplicateName", "obs.err.EEmptyVariable",
                "obs.err.ERecursionLimitReached", "card.closure.nested", "card.foreach", "card.repeat", "card.while",
                "card.array", "import.super", "import.module", "import.std", "main.not_first", "module.submodules",
                "str.len>252", "str.unicode", "disasm.compared", "globals.17+", "corpus.a23", "corpus.a24", "corpus.huge_upvalues",
